@@ -98,6 +98,11 @@ C15same(i) == (Tr[i].op = "stream" /\ Ok(i)) =>
 C15all(i) == (Tr[i].op = "stream" /\ Ok(i) /\ SelOfRun(i) = NoSel) =>
                 JobsOfPv(Tr[i].pv) = {n.job : n \in Tr[i].post.nodes}
 IngestedBefore(i) == \E k \in 1..i : Tr[k].op = "exit" /\ Tr[k].post.status = "ok"
+\* the files are the same in every ingesting run of a history, so all runs without the unique-graph filter (on the
+\* ingested store) output the same set of traces: nothing an earlier run did makes a later one drop or add a trace
+C15sameset(i) == (Tr[i].op = "stream" /\ Ok(i) /\ SelOfRun(i) = NoSel /\ IngestedBefore(i)) =>
+                    \A k \in 1..(i - 1) : (Tr[k].op = "stream" /\ Tr[k].post.status = "ok" /\ SelOfRun(k) = NoSel
+                                           /\ IngestedBefore(k)) => JobsOfPv(Tr[k].pv) = JobsOfPv(Tr[i].pv)
 C15classes(i) == (Tr[i].op = "ug" /\ Ok(i) /\ IngestedBefore(i)) =>
                     \A k \in 1..(i - 1) : (Tr[k].op = "ug" /\ Tr[k].post.status = "ok" /\ IngestedBefore(k)) =>
                        ClassesOf(Tr[k].sel, Tr[k].post.nodes) = ClassesOf(Tr[i].sel, Tr[i].post.nodes)
@@ -109,9 +114,9 @@ Clause(c, i) == CASE c = "C10crash" -> C10crash(i) [] c = "C10unique" -> C10uniq
                   [] c = "C12once" -> C12once(i) [] c = "C12exact" -> C12exact(i) [] c = "C12pv" -> C12pv(i)
                   [] c = "C12completes" -> C12completes(i)
                   [] c = "C15completes" -> C15completes(i) [] c = "C15same" -> C15same(i)
-                  [] c = "C15classes" -> C15classes(i) [] c = "C15all" -> C15all(i)
+                  [] c = "C15classes" -> C15classes(i) [] c = "C15all" -> C15all(i) [] c = "C15sameset" -> C15sameset(i)
 Clauses == {"C10crash", "C10unique", "C10exact", "C11incons", "C11window", "C11names", "C11frame", "C11twin", "C11after", "C09exact",
-            "C12once", "C12exact", "C12pv", "C12completes", "C15completes", "C15same", "C15classes", "C15all"}
+            "C12once", "C12exact", "C12pv", "C12completes", "C15completes", "C15same", "C15classes", "C15all", "C15sameset"}
 
 (* ---------------- reporting (always TRUE) ---------------- *)
 Report == /\ (l > 1) => \A c \in Clauses : Clause(c, l - 1) \/ PrintT(<<"BAD", tid, c, l - 1>>)
